@@ -75,10 +75,10 @@ KNOWN_MATCH = {
         lambda k, m, t, mo: k == "panic" and "wac-graph/src/encoding.rs" in m and "no entry found for key" in m
         and (has(t, r"^M:func\+nn\+h") or (has(t, r"^U:func\+nn\+h") and has(t, r"^(M|G:(inst|import|other)):type\+res$"))),
     "C01-value-import-unused":
-        lambda k, m, t, mo: k in ("late-validation-failure", "invalid-binary") and m.startswith("value index N was not used") and has(t, r"^M:value$"),
+        lambda k, m, t, mo: k in ("late-validation-failure", "invalid-binary") and re.match(r"value (index )?N (was not used|cannot be used more than once)", m) and has(t, r"^M:value$"),
     "C01-resource-identity-across-arguments":
         lambda k, m, t, mo: k in ("late-validation-failure", "invalid-binary") and "resource types are not the same" in m
-        and ((has(t, r"^(U|M|G:import):instance\S*\+uses\S*\+res") and has(t, r"^G:inst:instance\S*\+res"))
+        and ((has(t, r"^(U|M|G:import|G:inst):instance\S*\+uses\S*\+res") and has(t, r"^G:inst:instance\S*\+res"))
              or (has(t, r"^G:(inst|import|other):type\+res$") and has(t, r"^U:func\+nn\+h"))),
     "C01-merge-conflict-span-panic":
         lambda k, m, t, mo: k == "panic" and "wac-parser/src/resolution.rs" in m and "no entry found for key" in m and has(t, r"^M:"),
@@ -153,14 +153,14 @@ PROPOSED_KNOWN = [
               "panics (C08 finding F6 seen from the graph API). Second shape (`H reg 25;inst 0 0;imp 73 34;setarg 0 73 1`): the resource `tok` "
               "imported explicitly and passed as argument is emitted after the implicit import `burn: func(t: tok)`"),
     dict(property=PID, id="C01-value-import-unused", status="known", witness="H imp 36 17",
-         signature="`value index N was not used as part of an instantiation, start function, or export`; explicit import of value kind "
+         signature="`value index N was not used as part of an instantiation, start function, or export` / `value N cannot be used more than once`; explicit import of value kind "
                    "(tag M:value)",
          text="import(name, ItemKind::Value(..)) is accepted and encoded, but a component must consume every value exactly once"),
     dict(property=PID, id="C01-resource-identity-across-arguments", status="known",
          witness="H reg 22;reg 21;inst 1 0;alias 0 67;inst 0 0;setarg 2 67 1",
          signature="`type mismatch for import ... resource types are not the same`; an instantiation gets an instance with a resource "
                    "from another instantiation (tag G:inst:instance..+res) while an interface that `use`s that resource is an "
-                   "implicit or explicit import (tag U|M|G:import:instance..+uses..+res); or an instantiation gets a resource TYPE as an "
+                   "implicit or explicit import or comes from yet another instantiation (tag U|M|G:import|G:inst:instance..+uses..+res); or an instantiation gets a resource TYPE as an "
                    "argument (tag G:..:type+res) while a function over that resource stays an implicit import (tag U:func+nn+h)",
          text="r:user imports store and user (user uses store.blob); passing r:producer's store explicitly leaves `user` to an implicit "
               "import whose blob is the blob of a freshly imported store: every argument passed its own subtype check, the "
@@ -371,7 +371,9 @@ def run(res, tier, seed, replay):
         kinds[k] = kinds.get(k, 0) + 1
         tags = [t for t in im.get("shape", "").split(",") if t]
         if mo is not None:
-            if "DRIVER-EXN" in row["raw_model"]:
+            if im.get("res") == "ABORT":
+                pass    # the process died while encoding: nothing was observed
+            elif "DRIVER-EXN" in row["raw_model"]:
                 disagreements.append((row, ["driver exception: " + row["raw_model"][:200]]))
             else:
                 d = correspondence(im, mo)
